@@ -385,6 +385,21 @@ let handle_cr = function
         (String.concat "," (List.map hex_of_bytes o.o_opened)) (int_of_nat o.o_stdin_reads)
   | _ -> failwith "bad CR line"
 
+(* DT <id> <hex> <json 0|1> <yaml 0|1> <toml 0|1>: detect.rs over a slice, the MessagePack trial from the model,
+   the other three trials answering as given *)
+let handle_dt = function
+  | [ id; data; j; y; t ] ->
+      let inp = bytes_of_hex data in
+      let mk b = { t_ops = []; t_verdict = (fun _ -> Ok b) } in
+      let tm = mk (msgpack_matches utf8_valid inp) in
+      let st = start (HSlice inp) in
+      let _, r = detect_format (fun _ -> O) (nat_of_int 2097152) (fun _ -> t = "1") tm (mk (j = "1")) (mk (y = "1")) st in
+      (match r with
+      | Ok None -> id ^ " none"
+      | Ok (Some f) -> id ^ " " ^ fmt_name f
+      | Err _ -> id ^ " error")
+  | _ -> failwith "bad DT line"
+
 let () =
   try
     while true do
@@ -397,6 +412,7 @@ let () =
           | "MS" :: rest -> handle_ms rest
           | "FT" :: rest -> handle_ft rest
           | "FW" :: rest -> handle_fw rest
+          | "DT" :: rest -> handle_dt rest
           | "CP" :: rest -> handle_cp rest
           | "CR" :: rest -> handle_cr rest
           | "T" :: rest -> handle_t rest
